@@ -702,3 +702,93 @@ Proof. induction ts as [|t rest IH]; intros q q' H Hv Hs; cbn in H; [inversion H
 
 Theorem parse_valid s q : parse s = Some q -> valid_sort (q_orderby q) (q_dir q) = true /\ forallb valid_status (q_status q) = true.
 Proof. unfold parse. destruct (tokenize s); [|discriminate]. intros H. eapply steps_valid; eauto. Qed.
+
+(* ------------------------------------------------------------------ the rejection classes are exhaustive *)
+
+(* the reasons for which the parser refuses a string *)
+Inductive malformed (s : str) : Prop :=
+| M_quote : unmatched_quote s = true -> malformed s
+| M_field_quote fields f : split_func is_space s = Some fields -> In f fields -> unmatched_quote f = true -> malformed s
+| M_colon_edge fields f : split_func is_space s = Some fields -> In f fields -> has_prefix_colon f || has_suffix_colon f = true -> malformed s
+| M_separators fields f chunks : split_func is_space s = Some fields -> In f fields -> split_func is_colon f = Some chunks ->
+    (length chunks = 0 \/ 3 < length chunks)%nat -> malformed s
+| M_qualifier ts k v : tokenize s = Some ts -> In (TKV k v) ts -> known_key k = false -> malformed s
+| M_subqualifier ts k sk v : tokenize s = Some ts -> In (TKVV k sk v) ts -> str_eqb k k_metadata = false -> malformed s
+| M_status ts k v : tokenize s = Some ts -> In (TKV k v) ts -> str_eqb k k_status || str_eqb k k_state = true -> status_of v = None -> malformed s
+| M_no ts v : tokenize s = Some ts -> In (TKV k_no v) ts -> str_eqb v k_label = false -> malformed s
+| M_sort ts v : tokenize s = Some ts -> In (TKV k_sort v) ts -> sorting v = None -> malformed s
+| M_second_sort a v1 b v2 c : tokenize s = Some (a ++ TKV k_sort v1 :: b ++ TKV k_sort v2 :: c) -> malformed s.
+
+Lemma tok_of_none cs : tok_of cs = None -> (length cs = 0 \/ 3 < length cs)%nat.
+Proof. destruct cs as [|a [|b [|c [|d r]]]]; cbn; intros H; try discriminate; [left; reflexivity|right; lia]. Qed.
+
+Lemma tokenize_fields_none fs : tokenize_fields fs = None -> exists f, In f fs /\ field_tok f = None.
+Proof. induction fs as [|f rest IH]; [discriminate|]. rewrite tokenize_fields_cons'. destruct (field_tok f) eqn:E.
+  - destruct (tokenize_fields rest); [discriminate|]. intros _. destruct (IH eq_refl) as (g & Hg & Hb). exists g. split; [now right|exact Hb].
+  - intros _. exists f. split; [now left|exact E]. Qed.
+
+Lemma steps_none ts : forall q, steps q ts = None -> exists a t b qa, ts = a ++ t :: b /\ steps q a = Some qa /\ step qa t = None.
+Proof. induction ts as [|t rest IH]; intros q H; [discriminate|]. cbn in H. destruct (step q t) as [q'|] eqn:E.
+  - destruct (IH q' H) as (a & u & b & qa & -> & Ha & Hu). exists (t :: a), u, b, qa. repeat split; [|exact Hu]. cbn. now rewrite E.
+  - exists [], t, rest, q. repeat split. exact E. Qed.
+
+(* the sort flag is raised by a sort token only *)
+Lemma step_sorted_origin q t q' : step q t = Some q' -> q_sorted q = false -> q_sorted q' = true -> exists v, t = TKV k_sort v.
+Proof. intros H Hs Hs'. destruct t as [k v|k sk v|x]; cbn in H.
+  - destruct (str_eqb k k_sort) eqn:Ek; [apply str_eqb_eq in Ek; subst; now exists v|].
+    repeat match type of H with
+           | context [if ?c then _ else _] => destruct c
+           | context [match ?c with _ => _ end] => destruct c
+           end; try discriminate; inversion H; subst; cbn in Hs'; congruence.
+  - destruct (str_eqb k k_metadata); [|discriminate]. inversion H; subst; cbn in Hs'; congruence.
+  - inversion H; subst; cbn in Hs'; congruence. Qed.
+
+Lemma steps_sorted_origin ts : forall q q', steps q ts = Some q' -> q_sorted q = false -> q_sorted q' = true ->
+  exists a v b, ts = a ++ TKV k_sort v :: b.
+Proof. induction ts as [|t rest IH]; intros q q' H Hs Hs'; cbn in H; [inversion H; subst; congruence|].
+  destruct (step q t) as [q1|] eqn:E; [|discriminate]. destruct (q_sorted q1) eqn:E1.
+  - destruct (step_sorted_origin _ _ _ E Hs E1) as [v ->]. now exists [], v, rest.
+  - destruct (IH q1 q' H E1 Hs') as (a & v & b & ->). now exists (t :: a), v, b. Qed.
+
+Theorem rejects_complete s : parse s = None -> malformed s.
+Proof. unfold parse. destruct (tokenize s) as [ts|] eqn:Et.
+  - intros H. destruct (steps_none ts q0 H) as (a & t & b & qa & -> & Ha & Ht).
+    assert (Hin : In t (a ++ t :: b)) by (apply in_or_app; right; now left).
+    destruct t as [k v|k sk v|x]; cbn in Ht.
+    + destruct (str_eqb k k_status || str_eqb k k_state) eqn:E1.
+      { destruct (status_of v) eqn:Ev; [discriminate|]. eapply M_status; eauto. }
+      destruct (str_eqb k k_author) eqn:E2; [discriminate|]. destruct (str_eqb k k_actor) eqn:E3; [discriminate|].
+      destruct (str_eqb k k_participant) eqn:E4; [discriminate|]. destruct (str_eqb k k_label) eqn:E5; [discriminate|].
+      destruct (str_eqb k k_title) eqn:E6; [discriminate|].
+      destruct (str_eqb k k_no) eqn:E7.
+      { apply str_eqb_eq in E7; subst k. destruct (str_eqb v k_label) eqn:Ev; [discriminate|]. eapply M_no; eauto. }
+      destruct (str_eqb k k_sort) eqn:E8.
+      { apply str_eqb_eq in E8; subst k. destruct (q_sorted qa) eqn:Es.
+        - destruct (steps_sorted_origin a q0 qa Ha eq_refl Es) as (a1 & v1 & a2 & ->).
+          apply (M_second_sort s a1 v1 a2 v b). now rewrite <- app_assoc in Et.
+        - destruct (sorting v) as [[ob d]|] eqn:Ev; [discriminate|]. eapply M_sort; eauto. }
+      apply orb_false_iff in E1 as [E0 E1]. eapply M_qualifier; eauto. unfold known_key. now rewrite E0, E1, E2, E3, E4, E5, E6, E7, E8.
+    + destruct (str_eqb k k_metadata) eqn:E; [discriminate|]. eapply M_subqualifier; eauto.
+    + discriminate.
+  - intros _. unfold tokenize in Et. destruct (split_func is_space s) as [fields|] eqn:Es.
+    + destruct (tokenize_fields_none fields Et) as (f & Hin & Hb). unfold field_tok in Hb.
+      destruct (split_func is_colon f) as [chunks|] eqn:Ec.
+      * destruct (has_prefix_colon f || has_suffix_colon f) eqn:Ep; [eapply M_colon_edge; eauto|].
+        apply tok_of_none in Hb. rewrite map_length in Hb. eapply M_separators; eauto.
+      * apply split_func_none in Ec. eapply M_field_quote; eauto.
+    + apply split_func_none in Es. now apply M_quote. Qed.
+
+Theorem rejects_sound s : malformed s -> parse s = None.
+Proof. intros [H|fields f Hs Hin H|fields f Hs Hin H|fields f chunks Hs Hin Hc [H|H]|ts k v Ht Hin H|ts k sk v Ht Hin H|ts k v Ht Hin Hk H|ts v Ht Hin H|ts v Ht Hin H|a v1 b v2 c Ht].
+  - now apply reject_unmatched_quote.
+  - apply (parse_bad_field s fields f Hs Hin). unfold field_tok. apply (split_func_none is_colon) in H. now rewrite H.
+  - eapply reject_colon_edge; eauto.
+  - apply (parse_bad_field s fields f Hs Hin). unfold field_tok. rewrite Hc. destruct (has_prefix_colon f || has_suffix_colon f); [reflexivity|].
+    destruct chunks; [reflexivity|discriminate].
+  - eapply reject_too_many_separators; eauto.
+  - eapply reject_unknown_qualifier; eauto.
+  - eapply reject_unknown_subqualifier; eauto.
+  - eapply reject_unknown_status; eauto.
+  - eapply reject_unknown_no; eauto.
+  - eapply reject_unknown_sort; eauto.
+  - eapply reject_second_sort; eauto. Qed.
